@@ -620,6 +620,17 @@ let fdec (rest : string) : string =
       (match AmqpFrame.enc_frame f with
        | Some b -> "enc=" ^ hexs b ^ " dec=" ^ dec b
        | None -> "enc=ERR")
+  | "xfer" :: _ ->
+      let vs = Stdlib.List.map value_of_hex (split_c (kv ws "fields")) in
+      let payload = bytes_of_hex (kv ws "payload") in
+      (match TransferWire.transfer_perfs vs with
+       | None -> "wire=ERR"
+       | Some p ->
+         (match Transfer.wire_transfer (n_of_string (kv ws "m")) (n_of_string (kv ws "ch")) p payload with
+          | None -> "wire=ERR"
+          | Some chunks ->
+              let strip c = match c with _ :: _ :: _ :: _ :: r -> r | _ -> [] in
+              "wire=" ^ hexs (Stdlib.List.concat chunks) ^ " frames=" ^ Stdlib.String.concat "/" (Stdlib.List.map (fun c -> dec (strip c)) chunks)))
   | _ -> failwith "fdec: form"
 
 (* ---------- lifem: session lifecycle (C13) ---------- *)
